@@ -152,6 +152,58 @@ pub enum InterpolateError {
 ///  - Types should be annotated to ensure type inference does not break
 /// the contract by accident
 unsafe fn cast_unchecked<A, B>(a: A) -> B {
+    #[cfg(ndarray_interp_verif)]
+    verif::on_cast::<A, B>();
     let ptr = &*ManuallyDrop::new(a) as *const A as *const B;
     unsafe { ptr.read() }
+}
+
+/// Verification hooks, only compiled with `--cfg ndarray_interp_verif`.
+///
+/// Every call of the internal unchecked type cast is recorded in a
+/// thread local log *before* the cast is performed. A cast between types
+/// whose name, size or alignment differ panics instead of being performed.
+#[cfg(ndarray_interp_verif)]
+pub mod verif {
+    use std::cell::RefCell;
+
+    /// one call of the internal `cast_unchecked::<A, B>`
+    #[derive(Debug, Clone, PartialEq, Eq)]
+    pub struct CastEvent {
+        pub from: &'static str,
+        pub to: &'static str,
+        pub size: (usize, usize),
+        pub align: (usize, usize),
+    }
+
+    impl CastEvent {
+        /// source and destination are indistinguishable by name, size and alignment
+        pub fn is_identity(&self) -> bool {
+            self.from == self.to && self.size.0 == self.size.1 && self.align.0 == self.align.1
+        }
+    }
+
+    thread_local! {
+        static CASTS: RefCell<Vec<CastEvent>> = const { RefCell::new(Vec::new()) };
+    }
+
+    pub(crate) fn on_cast<A, B>() {
+        let event = CastEvent {
+            from: std::any::type_name::<A>(),
+            to: std::any::type_name::<B>(),
+            size: (std::mem::size_of::<A>(), std::mem::size_of::<B>()),
+            align: (std::mem::align_of::<A>(), std::mem::align_of::<B>()),
+        };
+        let ok = event.is_identity();
+        CASTS.with(|c| c.borrow_mut().push(event.clone()));
+        assert!(
+            ok,
+            "ndarray_interp_verif: cast_unchecked between different types: {event:?}"
+        );
+    }
+
+    /// drain the cast log of the current thread
+    pub fn take_cast_events() -> Vec<CastEvent> {
+        CASTS.with(|c| std::mem::take(&mut *c.borrow_mut()))
+    }
 }
